@@ -432,17 +432,16 @@ theorem tri_regionFace (a b c : V)
 
 theorem three_real : (3.0 : ℝ) = 3 := by norm_num
 
-/-- **triangle_spec** (non-degenerate branch, `|n|² ≥ ε²`): the seven regions are exhaustive,
-every division is by a non-zero quantity (the result is `.ok`), the returned point is the
-minimum-norm point of the triangle, and the set bits name a sub-simplex whose hull contains it. -/
-theorem closestPointTriangle_spec (a b c : V)
-    (h : ¬ V3.dot (triNormal a b c) (triNormal a b c) < EPS2) :
-    ∃ r, closestPointTriangle a b c = .ok r ∧ IsMinNorm (hullSet [a, b, c]) r.pt ∧
+/-- the region cascade on a triangle with non-zero normal: the seven regions are exhaustive,
+every division is by a non-zero quantity, the returned point is the minimum-norm point of the
+triangle, and the set bits name a sub-simplex whose hull contains it. -/
+theorem closestPointTriangleRegions_spec (a b c : V)
+    (hN : 0 < V3.dot (V3.cross (b - a) (c - a)) (V3.cross (b - a) (c - a))) :
+    ∃ r, closestPointTriangleRegions a b c (triNormal a b c) = .ok r ∧
+      IsMinNorm (hullSet [a, b, c]) r.pt ∧
       hullSet (selectBits r.set [a, b, c]) r.pt ∧ 1 ≤ r.set ∧ r.set ≤ 7 ∧ r.br ≤ 6 := by
-  have hN : 0 < V3.dot (V3.cross (b - a) (c - a)) (V3.cross (b - a) (c - a)) := by
-    rw [← triNormal_eq]; exact lt_of_lt_of_le EPS2_pos (not_lt.mp h)
   obtain ⟨he1, he2, he3⟩ := tri_edges_pos a b c hN
-  simp only [closestPointTriangle, h, if_false]
+  simp only [closestPointTriangleRegions]
   split_ifs with hA hB hAB hC hAC hBC
   · exact ⟨_, rfl, tri_regionA a b c hA.1 hA.2, by simpa [selectBits] using hull1_intro a,
       by norm_num, by norm_num, by norm_num⟩
@@ -471,6 +470,74 @@ theorem closestPointTriangle_spec (a b c : V)
     rw [triNormal_eq, three_real, cdivV_ok _ (by positivity)]
     refine ⟨_, rfl, hmin, ?_, by norm_num, by norm_num, by norm_num⟩
     simpa [selectBits] using hmin.1
+
+theorem maxEdgeLenSq_nonneg (a b c : V) : 0 ≤ maxEdgeLenSq a b c := by
+  unfold maxEdgeLenSq
+  exact le_max_of_le_left (V3.normSq_nonneg (b - a))
+
+/-- the three squared edge lengths are bounded by `maxEdgeLenSq` -/
+theorem le_maxEdgeLenSq (a b c : V) :
+    V3.dot (b - a) (b - a) ≤ maxEdgeLenSq a b c ∧ V3.dot (c - a) (c - a) ≤ maxEdgeLenSq a b c ∧
+    V3.dot (c - b) (c - b) ≤ maxEdgeLenSq a b c := by
+  unfold maxEdgeLenSq
+  exact ⟨le_max_left _ _, le_trans (le_max_left _ _) (le_max_right _ _),
+    le_trans (le_max_right _ _) (le_max_right _ _)⟩
+
+/-- the code's non-degeneracy test after repair ea3a5ff: `|n|² > EPSILON · L⁴`, `L²` the longest
+squared edge (altitude over the longest edge above `sqrt(EPSILON)·L`) -/
+def TriRegular (a b c : V) : Prop :=
+  ¬ V3.dot (triNormal a b c) (triNormal a b c) ≤ EPS * maxEdgeLenSq a b c * maxEdgeLenSq a b c
+
+theorem TriRegular.normal_pos {a b c : V} (h : TriRegular a b c) :
+    0 < V3.dot (V3.cross (b - a) (c - a)) (V3.cross (b - a) (c - a)) := by
+  have h' := not_le.mp h
+  rw [triNormal_eq] at h'
+  have : 0 ≤ EPS * maxEdgeLenSq a b c * maxEdgeLenSq a b c := by
+    have := mul_self_nonneg (maxEdgeLenSq a b c)
+    have hE : (0 : ℝ) < EPS := EPS_pos
+    nlinarith
+  linarith
+
+/-- a convenient sufficient condition: all squared edges `≤ L` and `ε·L² < |ab × ac|²` -/
+theorem triRegular_of_bound (a b c : V) (L : ℝ)
+    (h1 : V3.dot (b - a) (b - a) ≤ L) (h2 : V3.dot (c - a) (c - a) ≤ L)
+    (h3 : V3.dot (c - b) (c - b) ≤ L)
+    (hn : EPS * L * L < V3.dot (V3.cross (b - a) (c - a)) (V3.cross (b - a) (c - a))) :
+    TriRegular a b c := by
+  unfold TriRegular
+  rw [triNormal_eq, not_le]
+  have hm : maxEdgeLenSq a b c ≤ L := by
+    unfold maxEdgeLenSq
+    exact max_le h1 (max_le h2 h3)
+  have hm0 := maxEdgeLenSq_nonneg a b c
+  have hE : (0 : ℝ) < EPS := EPS_pos
+  have : EPS * maxEdgeLenSq a b c * maxEdgeLenSq a b c ≤ EPS * L * L := by
+    have : maxEdgeLenSq a b c * maxEdgeLenSq a b c ≤ L * L := mul_le_mul hm hm hm0 (le_trans hm0 hm)
+    nlinarith
+  linarith
+
+/-- **triangle_spec** (regular branch of the repaired code, `|n|² > ε·L⁴`). -/
+theorem closestPointTriangle_spec (a b c : V) (h : TriRegular a b c) :
+    ∃ r, closestPointTriangle a b c = .ok r ∧ IsMinNorm (hullSet [a, b, c]) r.pt ∧
+      hullSet (selectBits r.set [a, b, c]) r.pt ∧ 1 ≤ r.set ∧ r.set ≤ 7 ∧ r.br ≤ 6 := by
+  have e : closestPointTriangle a b c = closestPointTriangleRegions a b c (triNormal a b c) := by
+    unfold TriRegular at h
+    simp only [closestPointTriangle, h, if_false]
+  rw [e]
+  exact closestPointTriangleRegions_spec a b c h.normal_pos
+
+/-- the same for the routine before the repair (absolute test `|n|² ≥ ε²`) -/
+theorem closestPointTriangle_before_fix_spec (a b c : V)
+    (h : ¬ V3.dot (triNormal a b c) (triNormal a b c) < EPS2) :
+    ∃ r, closestPointTriangle_asIs_before_fix a b c = .ok r ∧ IsMinNorm (hullSet [a, b, c]) r.pt ∧
+      hullSet (selectBits r.set [a, b, c]) r.pt ∧ 1 ≤ r.set ∧ r.set ≤ 7 ∧ r.br ≤ 6 := by
+  have hN : 0 < V3.dot (V3.cross (b - a) (c - a)) (V3.cross (b - a) (c - a)) := by
+    rw [← triNormal_eq]; exact lt_of_lt_of_le EPS2_pos (not_lt.mp h)
+  have e : closestPointTriangle_asIs_before_fix a b c =
+      closestPointTriangleRegions a b c (triNormal a b c) := by
+    simp only [closestPointTriangle_asIs_before_fix, h, if_false]
+  rw [e]
+  exact closestPointTriangleRegions_spec a b c hN
 
 end Simplex
 end D3
